@@ -1,5 +1,6 @@
 PROP = {
-    "lean_modules": ["GunYu.Props.C17", "GunYu.Props.C17Reach", "GunYu.Props.C17RunId", "GunYu.Props.C17Migrate"],
+    "lean_modules": ["GunYu.Props.C17", "GunYu.Props.C17Reach", "GunYu.Props.C17RunId", "GunYu.Props.C17Migrate", "GunYu.Props.C17RunIdSeq", "GunYu.Props.C17RunIdFix", "GunYu.Props.C17Gen", "GunYu.Props.C17Fresh"],
+    "gens": ["c17guards"],
     "audit_namespaces": ["GunYu.Props.C17"],
     "required_theorems": [
         "GunYu.Props.C17.update_prefix_safe",
@@ -37,6 +38,26 @@ PROP = {
         "GunYu.Props.C17.setRunId_good",
         "GunYu.Props.C17.setRunIdCalls_good",
         "GunYu.Props.C17.setRunIdCalls_position",
+        # one RedisOutput, SetRunId with DIFFERENT ids in sequence (a second failover between two calls), attempts that fail
+        # with all their writes applied (Props/C17RunIdSeq.lean)
+        "GunYu.Props.C17.setRunIdF_good",
+        "GunYu.Props.C17.setRunIdF_nil_field",
+        "GunYu.Props.C17.setRunIdSeq_partial",
+        "GunYu.Props.C17.setRunIdSeq_position",
+        "GunYu.Props.C17.setRunIdSeq_stmt_refuted",
+        # the freshness hypotheses of goodChecks_decide_good / bareChecks_decide_bare decided on the dump (op c17fresh)
+        "GunYu.Props.C17.namesOk_decides",
+        "GunYu.Props.C17.idsOk_decides",
+        # the REPAIRED SetRunId (pendingRunId; Props/C17RunIdFix.lean)
+        "GunYu.Props.C17.setRunIdP_good",
+        "GunYu.Props.C17.setRunIdSeq_fixed_good",
+        "GunYu.Props.C17.setRunIdSeq_fixed",
+        # the decisions of GetCheckpoint / DelStaleCheckpoint regenerated from the source (Gen/CheckpointGuards.lean, Props/C17Gen.lean)
+        "GunYu.Props.C17.gen_cpBetter_eq_model",
+        "GunYu.Props.C17.gen_bestStep_eq_model",
+        "GunYu.Props.C17.gen_staleNewest0_eq_model",
+        "GunYu.Props.C17.gen_staleScanStep_eq_model",
+        "GunYu.Props.C17.gen_staleVictims_eq_model",
         # the position a bidirectional start really uses across the recovery-format switch (Props/C17Migrate.lean)
         "GunYu.Props.C17.migrate_start_exact",
         "GunYu.Props.C17.migrate_start_inferred",
@@ -54,9 +75,10 @@ PROP = {
                             'if len(ids) > 1 && cpRunId == ids[1] && ids[1] != ids[0] { ordered = []string{ids[1], ids[0]} }',
                             'label = ordered[0]',
                             'err = checkpoint.UpdateCheckpoint(cli, localCheckpoint, ordered)'],
-        # RedisOutput.SetRunId as Model/BookSys.lean setRunId transcribes it (logger calls removed): the early return, the ids
-        # passed, the in-memory field assigned only after an attempt succeeded, three attempts
-        "c17_setrunid": '{ if ro.cfg.RunId == id { return nil } return util.RetryLinearJitter(ctx, func() error { cli, err := ro.NewRedisConn(ctx) if err != nil { return err } defer cli.Close() err = checkpoint.UpdateCheckpoint(cli, ro.cfg.CheckpointName, []string{id, ro.cfg.RunId}) if err != nil { return err } ro.cfg.RunId = id return nil }, 3, time.Second*4, 0.3) }',
+        # RedisOutput.SetRunId as Model/BookRunIdSeq.lean setRunIdP transcribes it (logger calls removed; repaired, bf252d5): the early
+        # return, the finishing step for a pending id, the ids passed, the in-memory fields assigned only after a step succeeded,
+        # three attempts. Model/BookSys.lean setRunId is the same machine for calls that all carry one id (no finishing step)
+        "c17_setrunid": '{ if ro.cfg.RunId == id { return nil } return util.RetryLinearJitter(ctx, func() error { cli, err := ro.NewRedisConn(ctx) if err != nil { return err } defer cli.Close() if pending := ro.pendingRunId; pending != "" && pending != id { err = checkpoint.UpdateCheckpoint(cli, ro.cfg.CheckpointName, []string{pending, ro.cfg.RunId}) if err != nil { return err } ro.cfg.RunId = pending } ro.pendingRunId = id err = checkpoint.UpdateCheckpoint(cli, ro.cfg.CheckpointName, []string{id, ro.cfg.RunId}) if err != nil { return err } ro.cfg.RunId = id ro.pendingRunId = "" return nil }, 3, time.Second*4, 0.3) }',
         # the checkpoint-key HSETs of the replay path (Model/BookSys.lean senderEntries / writeReq)
         "c17_sender_cp_writes": ['batcher.Put("hset", checkpointKv.Key, checkpointKv.RunIdKey(), runId, checkpointKv.VersionKey(), config.Version)',
                                  'batcher.Put("hset", checkpointKv.Key, checkpointKv.OffsetKey(), lastOffset)'],
@@ -68,6 +90,7 @@ PROP = {
         {"name": "C17gf", "pkg": "./cmd/", "test": "TestVerifC17GcFrame"},
         {"name": "C17st", "pkg": "./syncer/", "test": "TestVerifC17Start"},
         {"name": "C17sys", "pkg": "./syncer/", "test": "TestVerifC17Sys"},
+        {"name": "C17sq", "pkg": "./syncer/", "test": "TestVerifC17Seq"},
     ],
     "driver": "drv_C17",
     "rule": "c17u (UpdateCheckpoint): corpus (D13 witnesses); generated bookkeeping states on the target double: nothing stored / rename / "
@@ -131,7 +154,7 @@ PROP = {
             "LOST, SMALLER or in ANOTHER database; a position that is merely different-but-larger where the model says equal is a difference at tie level, op c17eq): a maintenance step / "
             "a failover / a new second id never loses or lowers that position, a life never lowers it (system-step-loses-position), a position-less state never reads a position >= 0 "
             "(position-after-reset), the first position is not below X0 (first-position-unreadable), a complete SetRunId issued at least the entry HSET and the hash "
-            "repointing (tie c17eq relabel-writes>=2 = theorem relabel_len). Op c17life (replaces the self-comparison c17w): the REAL request log of the target double on the sender's "
+            "repointing (tie c17eq relabel-writes>=2 = theorem relabel_len). Op c17fresh beside every c17good / c17bare: the names / ids used so far (recorded by the harness) vs the dump - every key name and hash value is a used name, every field's run id and hash key a used id, key / ids / pending name among them (Drive/C17Fresh.lean). Op c17life (replaces the self-comparison c17w): the REAL request log of the target double on the sender's "
             "connection up to the cut / the gc pass (SELECT, MULTI, EXEC, the checkpoint-key HSETs classified by their field names, other commands) is fed to BookSys.lifeReqs (the model tracks "
             "the executing database through SELECT and applies a MULTI at its EXEC) from the state before the session; the model's fields under the key in every database vs what the double "
             "REALLY holds there (HGETALL order) - a write the model attributes to another database, loses inside an aborted MULTI or orders differently is a DIFF "
@@ -139,6 +162,12 @@ PROP = {
             "error replies planted at the (k+1)-th write request of chosen attempts (k in 0..5, one call in four failing entirely before the hash is repointed): per attempt "
             "the applied requests, per call the return value and the in-memory field, the final position vs BookSys.setRunId; monitors setrunid-calls-lose-position, "
             "setrunid-nil-without-relabel (a call that returned nil: position readable under [new, other]); both fire on lost / smaller / other database only. "
+            "Op c17sp (package syncer, harness C17sq; Model/BookRunIdSeq.lean srRunP = the REPAIRED SetRunId): ONE RedisOutput, the real SetRunId called with 2-3 DIFFERENT ids in turn (a failover of the source between two calls) under virtual time; "
+            "error replies planted on write requests (the step stops after k writes) AND on the first request of an attempt (a read: the step fails with all / none of its writes applied, AttemptF.rfail); in half of the cases a call's first "
+            "attempt stops at one of its last writes and its retries fail on a read (the call fails with cfg.RunId behind the label: the next call runs the finishing step); position in database 0 in two cases of three; each connection's requests are "
+            "split into the finishing UpdateCheckpoint and the relabel proper (at `hget <hash> <id of the call>`): per step the applied requests, per call the return value, cfg.RunId and pendingRunId, the final position under the ids reported "
+            "at the end vs BookSys.srRunP; monitor setrunid-second-failover-loses-position (the position was readable after every failover, the final start reads none / less / elsewhere; replay.class = field-current | stale-field-other | "
+            "stale-field-db0-records-gone - the last was finding C17-F1, fixed by bf252d5, its witnesses stay in corpus/C17/setrunid_second_failover.txt and the monitor is silent on them now). "
             "c17mb (in c17m): the offset the REAL bidirectional start resumes at before the switch (RedisOutput.StartPoint in the namespace's current mode) and after EVERY request "
             "the switch issued (the real resolve re-run + StartPoint in the desired mode), consecutive duplicates removed, vs MigrateNs.bisyncStart / nextStart over the prefixes of "
             "MigrateNs.migrateReqsB (all branches of the switch; refused switches excluded). "
@@ -158,11 +187,12 @@ PROP = {
         "a format switch the code REFUSES (no authoritative seed: root checkpoint only - pinned by the repo test TestResolveBisyncCheckpointNameRejectsPlainCheckpointFallback -, or a journal gap) issues no request and leaves the target as it was; the start keeps failing until the configured mode is reverted - counted as migrate_refused, not a loss of position",
     ],
     "partial": [
-        "RedisOutput.SetRunId is now modelled as a state machine over the in-memory field (Model/BookSys.lean setRunId / retryLoop / setRunIdCalls: early return, [new, field] passed, field assigned only after a complete attempt, at most three attempts) and proved (Props/C17RunId.lean): on every reachable state any sequence of calls with any fate of the attempts keeps the SAME position readable under the reported ids and the field equal to the label or (hash already repointed by a failed attempt) to the second id (FieldOK); a call that returns nil has relabelled. An attempt is `k write requests applied, then an error or completion`: an error reply to a READ request of an attempt that has nothing to write (hash already repointed) cannot be expressed (the real attempt fails and is retried; harmless) - c17sr plants errors on write requests only",
+        "RedisOutput.SetRunId is now modelled as a state machine over the in-memory field (Model/BookSys.lean setRunId / retryLoop / setRunIdCalls: early return, [new, field] passed, field assigned only after a complete attempt, at most three attempts) and proved (Props/C17RunId.lean): on every reachable state any sequence of calls with any fate of the attempts keeps the SAME position readable under the reported ids and the field equal to the label or (hash already repointed by a failed attempt) to the second id (FieldOK); a call that returns nil has relabelled. In BookSys.setRunId an attempt is `k write requests applied, then an error or completion` (c17sr plants errors on write requests only); the fate `an attempt fails with ALL its writes applied` (dial error, error reply to a READ request, failed Flush - the only way an attempt with nothing left to write fails) is Model/BookRunIdSeq.lean AttemptF.rfail: setRunIdF_good re-proves the statement with it, c17sq plants read errors on the real SetRunId",
         "migrate_start_exact / migrate_start_inferred (Props/C17Migrate.lean) prove, for the migration PROPER (stored mode marker, or none and the mode inferred; another recovery family, authoritative seed), that after ANY prefix of the switch's requests - namespace-level ones included (frontier snapshot / latest record seed, journal / slot-key / root clean-up: Model/MigrateNs.lean) - the next bidirectional start (switch re-run to completion into a second drawn name, then bisyncStartPoint in the new mode = C14's Frontier.startLatest / startFrontier) resumes at EXACTLY the offset the start in the old mode resumed at. In-place switches (same recovery family) / namespace creation / refused switches have no theorem on the bidirectional start (c17mb compares the former two with the real code). The model ignores the marker keys (`…:marker:{tag}`) and the UpdateCheckpoint the start runs between resolve and StartPoint (a no-op once the hash maps ids[0] to the resolved name)",
         "`Reach`'s sender step is the sender model's wire log made concrete (BookSys.lifeReqs): c17life ties lifeReqs to the REAL request log (what the double holds after it), fact c17_sender_cp_writes the shape of the HSETs; that the real log is one the sender MODEL produces (LifeHyp: sorted offsets etc.) is C02/C07's tie, not re-checked here beyond `Good` on the states real sessions leave (c17good)",
-        "c17good / c17bare evaluate goodChecks / bareChecks, proved to IMPLY Good / Bare (goodChecks_decide_good / bareChecks_decide_bare; only that direction) given that the dump is the whole state and the freshness clauses (names / ids never used do not occur: ghost state the harness guarantees by drawing new names / ids from counters) hold - those are hypotheses of the theorems, not evaluated",
-        "setRunIdCalls_good / setRunIdCalls_position are about calls that all carry the SAME new id (a second failover between two calls of one RedisOutput is a `failover` step of Reach followed by a fresh sequence; not one theorem)",
+        "c17good / c17bare evaluate goodChecks / bareChecks, proved to IMPLY Good / Bare (goodChecks_decide_good / bareChecks_decide_bare; only that direction) given that the dump is the whole state and the freshness clauses hold. The freshness clauses (hkeyIn / hmasIn / hsecIn / hpmem / hnames / hids: key, ids and pending name are among the names / ids used so far, a name / id never used occurs nowhere on the target) are now EVALUATED: c17sys records every key name that was current or pending and every id the source reported (at every check) and op c17fresh evaluates Drive/C17Fresh.lean freshWhy on the dump beside every c17good / c17bare; Props/C17Fresh.lean namesOk_decides / idsOk_decides prove that the Bool implies hnames / hids for the target the driver builds from the dump (mkTarget). Still a hypothesis: the dump is the whole state (VfDumpState lists every hash of every database of the double), and the recorded lists are the harness's own bookkeeping of Ctl.names / Ctl.ids (recorded at checks, i.e. after every step)",
+        "calls with DIFFERENT ids in sequence (a second failover between two calls of ONE RedisOutput): Model/BookRunIdSeq.lean has BOTH state machines - srRun (before the repair bf252d5: setRunIdSeq_partial holds when every failover is learnt while cfg.RunId is the master id, and the general statement setRunIdSeq_stmt is refuted: setRunIdSeq_stmt_refuted, the witness of C17-F1) and srRunP (the repaired code with pendingRunId: dial error, finishing step and relabel proper each with any fate). Props/C17RunIdFix.lean setRunIdSeq_fixed proves the general statement for the repaired machine: a fresh RedisOutput on any reachable state, any failovers (each while the hash maps the master id, its id never used before) and calls: the SAME position stays readable (invariant InvP over cfg.RunId / pendingRunId). Not covered: a failover while the position is still labelled with the id before (no request of the relabel applied; the position is unreadable under the reported ids - outside the property, counted sq_unreadable_after_failover), an id that returns (a source failing BACK to an id used before; ids are fresh in Reach), a dial error is in the model but not planted by the harness (vfSysOutput's connection factory always succeeds)",
+        "REGENERATED decisions (harness/extract/c17guards.go -> Gen/CheckpointGuards.lean, Props/C17Gen.lean gen_*_eq_model): GetCheckpoint's selection condition (larger offset, newer mtime on a tie), DelStaleCheckpoint's `newest` / candidate / spare conditions and the initial newest. NOT regenerated (still hand model + correspondence ops c17u / c17g + facts): fetchCheckpoint's field loop (HasPrefix / Contains matching, which field overwrites which), UpdateCheckpoint's re-key plan (which requests in which order, the `dbid < 0` and `rewritten` branches), the field lists of the two HDELs, gcStaleCp's `!exist && total == deleted` - they are interleaved with I/O, gofn translates whole pure functions only; a condition moved into a helper function makes the generator fail (broken tie, no guess)",
         "migrate_start_exact / migrate_start_inferred keep their own preconditions (MigStartPre): they are not derived from a reachability predicate of the bidirectional writers",
         "gc_spares_newest_of_live_id / gc_passes_exceptNewest are lemmas that restate the definition (kept for the audit, not required); the property's second sentence is gc_spares_live_id (whole gc pass, ANY live id) and, on reachable states, reach_gc_spares_label",
     ],
@@ -176,7 +206,7 @@ MANIFEST = {
             "DelStaleCheckpoint with exceptNewest never deletes in the database holding the id's largest offset, for every clock position. "
             "Tied to the code by differential correspondence of the real functions against the target double with every request prefix replayed and "
             "the real start-point read, plus independent monitors; literal field/key names regenerated from the source. "
-            "Six defects found and fixed (D13: re-keyed position written into an arbitrary database; D22: format switch dropped a newer root checkpoint; D24: gc deleted the run id fields a running sender relies on; D27: an offset stored without its run id was promoted to a position in DB 0; D33: SetRunId's retry after a failed attempt ran with [new,new] and overwrote the position with -1; D34: UpdateCheckpoint run again deleted the entry it had just written).",
+            "One RedisOutput across several failovers (Props/C17RunIdFix.lean setRunIdSeq_fixed, the repaired SetRunId with pendingRunId). The selection conditions of GetCheckpoint / DelStaleCheckpoint are regenerated from the source (Props/C17Gen.lean). Seven defects found and fixed (C17-F1, bf252d5: a SetRunId call that failed after repointing the hash left cfg.RunId behind the label; after a second failover the next call overwrote the position in database 0 with the placeholder -1 - proved on the model of the old state machine, setRunIdSeq_stmt_refuted, and executed on the real code; D13: re-keyed position written into an arbitrary database; D22: format switch dropped a newer root checkpoint; D24: gc deleted the run id fields a running sender relies on; D27: an offset stored without its run id was promoted to a position in DB 0; D33: SetRunId's retry after a failed attempt ran with [new,new] and overwrote the position with -1; D34: UpdateCheckpoint run again deleted the entry it had just written).",
     "note": "trusted: Lean kernel (propext, Classical.choice, Quot.sound only), target double, extractor, harness; cmd/syncer.go gcStaleCp closure compared textually with the transliteration",
     "technique": "Lean 4 proof (position predicate preserved request by request, fold invariants over arbitrary DB orders) + differential correspondence over every request prefix (crash points)",
 }
